@@ -30,6 +30,8 @@ Inductive prog :=
 | NotifyVal (k : N)                   (* Storage.Get k, then Notify with what was read *)
 | NotifyFee                           (* Policy.getFeePerByte (native cache), then Notify with what was read *)
 | Move (to amt : N) (cb : prog)       (* GAS.transfer(self, to, amt, cb); cb runs as onNEP17Payment of a contract *)
+| MoveNeo (to amt : N) (cb : prog)    (* NEO.transfer(self, to, amt, cb): balances, candidate votes, voters count,
+                                         votesChanged in the NEO cache, GAS claims minted to both sides *)
 | SetFee (v : N)                      (* Policy.setFeePerByte: contract storage + native cache *)
 | Seq (p q : prog)
 | Call (c fl : N) (body : prog)       (* System.Contract.Call of contract c with requested call flags fl *)
@@ -49,6 +51,7 @@ Section ProgInd.
   Hypothesis HNotifyVal : forall k, P (NotifyVal k).
   Hypothesis HNotifyFee : P NotifyFee.
   Hypothesis HMove : forall to amt cb, P cb -> P (Move to amt cb).
+  Hypothesis HMoveNeo : forall to amt cb, P cb -> P (MoveNeo to amt cb).
   Hypothesis HSetFee : forall v, P (SetFee v).
   Hypothesis HSeq : forall p q, P p -> P q -> P (Seq p q).
   Hypothesis HCall : forall c fl body, P body -> P (Call c fl body).
@@ -60,6 +63,7 @@ Section ProgInd.
     | Skip => HSkip | Put k v => HPut k v | Del k => HDel k | Notify e => HNotify e
     | NotifyVal k => HNotifyVal k | NotifyFee => HNotifyFee
     | Move to amt cb => HMove to amt cb (prog_ind' cb)
+    | MoveNeo to amt cb => HMoveNeo to amt cb (prog_ind' cb)
     | SetFee v => HSetFee v
     | Seq p q => HSeq p q (prog_ind' p) (prog_ind' q)
     | Call c fl body => HCall c fl body (prog_ind' body)
@@ -86,10 +90,13 @@ Inductive event :=
 | EvN (c e : N)                       (* Notify e by contract c *)
 | EvV (c k : N) (v : option N)        (* NotifyVal *)
 | EvP (c v : N)                       (* NotifyFee *)
-| EvT (from to amt : N).              (* GAS Transfer *)
+| EvT (from to amt : N)               (* GAS Transfer; from = NIL for a mint *)
+| EvTN (from to amt : N).             (* NEO Transfer *)
 
 Definition GASNS : N := 100.                    (* namespace of GAS balances: key = account *)
 Definition POLNS : N := 101.                    (* namespace of Policy: key 0 = fee per byte *)
+Definition NEONS : N := 102.                    (* namespace of NEO, see kNeo .. kVoters *)
+Definition NIL : N := 98.                       (* "null" account in a mint's Transfer event *)
 Definition ENTRY : N := 200.                    (* the transaction's entry script (not a contract) *)
 Definition ncontracts : N := 3.
 Definition is_contract (c : N) : bool := c <? ncontracts.
@@ -103,8 +110,13 @@ Definition has (fl m : N) : bool := N.land fl m =? m.
 
 (* ---------- layers ---------- *)
 
-Record layer := mkL { lst : store; lnc : option N }.   (* private store + this layer's copy of the Policy cache *)
-Record mstate := mkM { lay : list layer; ntf : list event; exc : bool }.  (* DAO stack (top first), ic.Notifications, v.uncaughtException != nil *)
+(* private store + this layer's copies of two native caches: Policy (fee per byte) and NEO (votesChanged) *)
+Record layer := mkL { lst : store; lnc : option N; lvc : option N }.
+(* DAO stack (top first), ic.Notifications, v.uncaughtException != nil.
+   [bad] is a GHOST flag, never read by the machine: it records that a layered call frame (or a payment callback run
+   for a native contract) RETURNED while an exception was pending — the one situation (finding F40) in which the
+   unload callback drops the effects of a callee that did not fail. *)
+Record mstate := mkM { lay : list layer; ntf : list event; exc : bool; bad : bool }.
 Inductive res := Normal (s : mstate) | Thrown (s : mstate) | Fault (s : mstate).
 
 Inductive policy := Lazy | Eager.
@@ -126,7 +138,7 @@ Fixpoint lget (k : key) (ls : list layer) : option N :=
   end.
 Definition put_top (k : key) (v : option N) (ls : list layer) : list layer :=
   match ls with
-  | l :: r => mkL ((k, v) :: lst l) (lnc l) :: r
+  | l :: r => mkL ((k, v) :: lst l) (lnc l) (lvc l) :: r
   | [] => []
   end.
 
@@ -144,25 +156,48 @@ Fixpoint nc_rw (ls : list layer) : option N * list layer :=
       match lnc l with
       | Some v => (Some v, ls)
       | None => let '(v, r') := nc_rw r in
-                (v, mkL (lst l) v :: r')
+                (v, mkL (lst l) v (lvc l) :: r')
       end
   end.
 Definition nc_set (v : N) (ls : list layer) : list layer :=
   match snd (nc_rw ls) with
-  | l :: r => mkL (lst l) (Some v) :: r
+  | l :: r => mkL (lst l) (Some v) (lvc l) :: r
+  | [] => []
+  end.
+(* the same for the NEO cache *)
+Fixpoint vc_get (ls : list layer) : option N :=
+  match ls with
+  | [] => None
+  | l :: r => match lvc l with Some v => Some v | None => vc_get r end
+  end.
+Fixpoint vc_rw (ls : list layer) : option N * list layer :=
+  match ls with
+  | [] => (None, [])
+  | l :: r =>
+      match lvc l with
+      | Some v => (Some v, ls)
+      | None => let '(v, r') := vc_rw r in
+                (v, mkL (lst l) (lnc l) v :: r')
+      end
+  end.
+Definition vc_set (v : N) (ls : list layer) : list layer :=
+  match snd (vc_rw ls) with
+  | l :: r => mkL (lst l) (lnc l) (Some v) :: r
   | [] => []
   end.
 
-Definition push (ls : list layer) : list layer := mkL [] None :: ls.          (* GetPrivate *)
+Definition push (ls : list layer) : list layer := mkL [] None None :: ls.     (* GetPrivate *)
 Definition commit (ls : list layer) : list layer :=                           (* Persist into the parent *)
   match ls with
-  | t :: l :: r => mkL (lst t ++ lst l) (match lnc t with Some v => Some v | None => lnc l end) :: r
+  | t :: l :: r => mkL (lst t ++ lst l) (match lnc t with Some v => Some v | None => lnc l end)
+                       (match lvc t with Some v => Some v | None => lvc l end) :: r
   | _ => ls
   end.
 
-Definition set_lay (s : mstate) (ls : list layer) : mstate := mkM ls (ntf s) (exc s).
-Definition add_ntf (s : mstate) (e : event) : mstate := mkM (lay s) (ntf s ++ [e]) (exc s).
-Definition set_exc (s : mstate) (b : bool) : mstate := mkM (lay s) (ntf s) b.
+Definition set_lay (s : mstate) (ls : list layer) : mstate := mkM ls (ntf s) (exc s) (bad s).
+Definition add_ntf (s : mstate) (e : event) : mstate := mkM (lay s) (ntf s ++ [e]) (exc s) (bad s).
+Definition set_exc (s : mstate) (b : bool) : mstate := mkM (lay s) (ntf s) b (bad s).
+Definition mark (b : bool) (s : mstate) : mstate := mkM (lay s) (ntf s) (exc s) (bad s || b).
 
 (* callExFromNative: the layering decision *)
 Definition wrapped (it : bool) (fl : N) : bool := it && negb (N.land fl (N.lor fW fN) =? 0).
@@ -170,9 +205,11 @@ Definition enter (w : bool) (s : mstate) : mstate := if w then set_lay s (push (
 (* onUnload, run by unloadContext with commit := (uncaughtException == nil) *)
 Definition unload (w : bool) (base : nat) (s : mstate) : mstate :=
   if w then
-    if exc s then mkM (tl (lay s)) (firstn base (ntf s)) (exc s)
+    if exc s then mkM (tl (lay s)) (firstn base (ntf s)) (exc s) (bad s)
     else set_lay s (commit (lay s))
   else s.
+(* a frame returns normally (RET): the same callback; the ghost flag notes the F40 situation *)
+Definition leave (w : bool) (base : nat) (s : mstate) : mstate := mark (w && exc s) (unload w base s).
 
 (* does the handler of a try in its catch block make ContractHasTryBlock true? *)
 Definition catch_it (pol : policy) (it hasfin : bool) : bool :=
@@ -194,6 +231,54 @@ Definition move_state (cid to amt : N) (s1 : mstate) : mstate :=
 (* Policy.setFeePerByte: setIntWithKey, then GetRWCache and assignment *)
 Definition setfee_state (v : N) (s1 : mstate) : mstate :=
   set_lay s1 (nc_set v (put_top (POLNS, 0) (Some v) (lay s1))).
+
+(* ---------- NEO.transfer: what it does to contract storage, as a function of the flat view ----------
+   An effect yields the entries to put (newest first) given what reads through the layers return (lget_flat: the
+   flat view).  The machine puts them into the top layer, the specification onto its one store. *)
+Definition eff := store -> store.
+Definition sval (st : store) (k : key) : N := dflt (lookup k st).
+Definition eseq (e1 e2 : eff) : eff := fun st => let n1 := e1 st in e2 (n1 ++ st) ++ n1.
+Definition ewr (k : key) (f : store -> N) : eff := fun st => [(k, let v := f st in if v =? 0 then None else Some v)].
+Definition eskip : eff := fun _ => [].
+Definition eif (c : store -> bool) (e1 e2 : eff) : eff := fun st => if c st then e1 st else e2 st.
+
+Definition kNeo (a : N) : key := (NEONS, a).          (* NEO balance *)
+Definition kClaim (a : N) : key := (NEONS, 10 + a).   (* GAS that distributeGas mints when the balance is next touched in this block *)
+Definition kVote (a : N) : key := (NEONS, 20 + a).    (* 0: no vote, 1: votes for the candidate *)
+Definition kCand : key := (NEONS, 30).                (* votes of the candidate *)
+Definition kVoters : key := (NEONS, 31).              (* voters count *)
+
+(* increaseBalance for one side: distributeGas (claim consumed, BalanceHeight := this block), ModifyAccountVotes,
+   modifyVoterTurnout, the balance; an account whose balance reaches zero is deleted (its vote with it) *)
+Definition neo_side (a : N) (plus : bool) (amt : N) : eff :=
+  let upd := fun x => if plus then x + amt else x - amt in
+  eseq (ewr (kClaim a) (fun _ => 0))
+ (eseq (eif (fun st => sval st (kVote a) =? 0) eskip
+            (eseq (ewr kCand (fun st => upd (sval st kCand))) (ewr kVoters (fun st => upd (sval st kVoters)))))
+ (eseq (ewr (kNeo a) (fun st => upd (sval st (kNeo a))))
+       (eif (fun st => sval st (kNeo a) =? 0) (ewr (kVote a) (fun _ => 0)) eskip))).
+Definition neo_eff (cid to amt : N) : eff :=
+  if (cid =? to) || (amt =? 0) then ewr (kClaim cid) (fun _ => 0)
+  else eseq (neo_side cid false amt) (neo_side to true amt).
+Definition mint_eff (a d : N) : eff :=
+  if d =? 0 then eskip else ewr (GASNS, a) (fun st => sval st (GASNS, a) + d).
+
+Definition apply_eff (e : eff) (ls : list layer) : list layer :=
+  match ls with
+  | l :: r => mkL (e (concat (map lst ls)) ++ lst l) (lnc l) (lvc l) :: r
+  | [] => []
+  end.
+
+(* NEO.transfer once the balance check has passed, up to the Transfer event *)
+Definition neo_state (cid to amt : N) (s1 : mstate) : mstate :=
+  let ls2 := apply_eff (neo_eff cid to amt) (lay s1) in
+  let ls3 := if (cid =? to) || (amt =? 0) then ls2 else vc_set 1 ls2 in   (* ModifyAccountVotes: cache.votesChanged = true *)
+  add_ntf (set_lay s1 ls3) (EvTN cid to amt).
+Definition neo_d2 (cid to amt : N) (st : store) : N :=
+  if (cid =? to) || (amt =? 0) then 0 else sval st (kClaim to).
+(* MintDeferrable: GAS balance and its Transfer event (total supply is outside the model) *)
+Definition mint_state (a d : N) (s : mstate) : mstate :=
+  if d =? 0 then s else add_ntf (set_lay s (apply_eff (mint_eff a d) (lay s))) (EvT NIL a d).
 
 (* TRY / ENDTRY / ENDFINALLY and handleException for one try block; rb, rc, rf run the three blocks.
    fin_of: the finally block was entered by ENDTRY (normal_entry) or by handleException (EndOffset = -1). *)
@@ -245,23 +330,46 @@ Fixpoint exec (pol : policy) (p : prog) (cid fl : N) (it : bool) (s : mstate) {s
   | SetFee v =>
       if has fl fR && has fl fW && has fl fC then
         let w := wrapped it fl in
-        Normal (unload w (length (ntf s)) (setfee_state v (enter w s)))
+        Normal (leave w (length (ntf s)) (setfee_state v (enter w s)))
       else Fault s
   | Move to amt cb =>
       if has fl fAll then
         let w := wrapped it fl in
         let base := length (ntf s) in
         let s1 := enter w s in
-        if bal (lay s1) cid <? amt then Normal (unload w base s1)            (* transfer returns false *)
+        if bal (lay s1) cid <? amt then Normal (leave w base s1)            (* transfer returns false *)
         else
           let s3 := move_state cid to amt s1 in
           if is_contract to then
             match exec pol cb to fAll false s3 with
-            | Normal s4 => if exc s4 then Fault s4 else Normal (unload w base s4)
+            | Normal s4 => if exc s4 then Fault (mark true s4) else Normal (leave w base s4)
             | Thrown s4 => Fault s4                             (* "unhandled exception" from a native caller *)
             | Fault s4 => Fault s4
             end
-          else Normal (unload w base s3)
+          else Normal (leave w base s3)
+      else Fault s
+  | MoveNeo to amt cb =>
+      if has fl fAll then
+        let w := wrapped it fl in
+        let base := length (ntf s) in
+        let s1 := enter w s in
+        let st := concat (map lst (lay s1)) in
+        if sval st (kNeo cid) <? amt then Normal (leave w base s1)          (* transfer returns false *)
+        else
+          let d1 := sval st (kClaim cid) in
+          let d2 := neo_d2 cid to amt st in
+          let s3 := neo_state cid to amt s1 in
+          (* onNEP17Payment of a receiving contract; then the deferred GAS mints, each with a (data = null) payment
+             callback when the receiver is a contract.  Any callback that returns while an exception is pending makes
+             the native caller fail: "unhandled exception" *)
+          match (if is_contract to then exec pol cb to fAll false s3 else Normal s3) with
+          | Normal s4 =>
+              if exc s4 && (is_contract to || (negb (d1 =? 0) && is_contract cid) || (negb (d2 =? 0) && is_contract to))
+              then Fault (mark true s4)
+              else Normal (leave w base (mint_state to d2 (mint_state cid d1 s4)))
+          | Thrown s4 => Fault s4
+          | Fault s4 => Fault s4
+          end
       else Fault s
   | Seq p q =>
       match exec pol p cid fl it s with
@@ -274,7 +382,7 @@ Fixpoint exec (pol : policy) (p : prog) (cid fl : N) (it : bool) (s : mstate) {s
         let w := wrapped it fe in
         let base := length (ntf s) in
         match exec pol body c fe false (enter w s) with
-        | Normal s2 => Normal (unload w base s2)
+        | Normal s2 => Normal (leave w base s2)
         | Thrown s2 => Thrown (unload w base s2)
         | Fault s2 => Fault s2
         end
@@ -289,25 +397,24 @@ Fixpoint exec (pol : policy) (p : prog) (cid fl : N) (it : bool) (s : mstate) {s
 
 (* ---------- a transaction in a block (storeBlock) ---------- *)
 
-Definition start (base : layer) : mstate := mkM [mkL [] None; base] [] false.   (* interop.NewContext: d.GetPrivate() *)
-Definition bottom (s : mstate) : layer := last (lay s) (mkL [] None).
+Definition start (base : layer) : mstate := mkM [mkL [] None None; base] [] false false.   (* interop.NewContext: d.GetPrivate() *)
+Definition bottom (s : mstate) : layer := last (lay s) (mkL [] None None).
 
-Record txout := mkOut { halted : bool; after : layer; events : list event }.
+Record txout := mkOut { halted : bool; after : layer; events : list event; clean : bool }.   (* clean = ghost flag not set *)
 
 (* the block-level layer after the transaction: the transaction's layer is persisted iff the VM halted;
    otherwise the block-level DAO is whatever the execution left of it *)
 Definition run_tx (pol : policy) (base : layer) (p : prog) : txout :=
   match exec pol p ENTRY fAll false (start base) with
-  | Normal s' => mkOut true (match commit (lay s') with [b] => b | _ => bottom s' end) (ntf s')
-  | Thrown s' => mkOut false (bottom s') (ntf s')
-  | Fault s' => mkOut false (bottom s') (ntf s')
+  | Normal s' => mkOut true (match commit (lay s') with [b] => b | _ => bottom s' end) (ntf s') (negb (bad s'))
+  | Thrown s' => mkOut false (bottom s') (ntf s') (negb (bad s'))
+  | Fault s' => mkOut false (bottom s') (ntf s') (negb (bad s'))
   end.
 
-(* GAS.OnPersist burns the fee from the sender before any transaction of the block runs *)
-Definition SENDER : N := 9.
-Definition charge (fee : N) (base : layer) : layer :=
-  mkL ((GASNS, SENDER, Some (dflt (lookup (GASNS, SENDER) (lst base)) - fee)) :: lst base) (lnc base).
-Definition apply_tx (pol : policy) (base : layer) (fee : N) (p : prog) : txout := run_tx pol (charge fee base) p.
+(* GAS.OnPersist burns system + network fee of every transaction from ITS sender before any transaction of the block runs *)
+Definition charge (sender fee : N) (base : layer) : layer :=
+  mkL ((GASNS, sender, Some (dflt (lookup (GASNS, sender) (lst base)) - fee)) :: lst base) (lnc base) (lvc base).
+Definition apply_tx (pol : policy) (base : layer) (sender fee : N) (p : prog) : txout := run_tx pol (charge sender fee base) p.
 
 (* ---------- a block: storeBlock runs all transactions on ONE reused VM ----------
    What survives from one transaction to the next: the block-level DAO (cache) and the VM object.  Per
@@ -316,11 +423,12 @@ Definition apply_tx (pol : policy) (base : layer) (fee : N) (p : prog) : txout :
    when a faulted transaction ends; [reset] is VM.Reset's assignment. *)
 Definition tx_step (pol : policy) (reset : bool) (st : layer * bool) (p : prog) : (layer * bool) * txout :=
   let '(base, reg) := st in
-  let s0 := mkM [mkL [] None; base] [] (if reset then false else reg) in
+  let s0 := mkM [mkL [] None None; base] [] (if reset then false else reg) false in
   match exec pol p ENTRY fAll false s0 with
-  | Normal s' => (match commit (lay s') with [b] => b | _ => bottom s' end, exc s', mkOut true (match commit (lay s') with [b] => b | _ => bottom s' end) (ntf s'))
-  | Thrown s' => (bottom s', exc s', mkOut false (bottom s') (ntf s'))
-  | Fault s' => (bottom s', exc s', mkOut false (bottom s') (ntf s'))
+  | Normal s' => (match commit (lay s') with [b] => b | _ => bottom s' end, exc s',
+                  mkOut true (match commit (lay s') with [b] => b | _ => bottom s' end) (ntf s') (negb (bad s')))
+  | Thrown s' => (bottom s', exc s', mkOut false (bottom s') (ntf s') (negb (bad s')))
+  | Fault s' => (bottom s', exc s', mkOut false (bottom s') (ntf s') (negb (bad s')))
   end.
 Fixpoint run_txs (pol : policy) (reset : bool) (st : layer * bool) (ps : list prog) : (layer * bool) * list txout :=
   match ps with
@@ -329,9 +437,11 @@ Fixpoint run_txs (pol : policy) (reset : bool) (st : layer * bool) (ps : list pr
               let '(st2, os) := run_txs pol reset st1 r in
               (st2, o :: os)
   end.
-(* GAS.OnPersist burns all fees first, then the transactions run in order *)
-Definition apply_block (pol : policy) (base : layer) (txs : list (N * prog)) : layer * list txout :=
-  let '(st, os) := run_txs pol true (fold_left (fun b t => charge (fst t) b) txs base, false) (map snd txs) in
+(* GAS.OnPersist burns all fees first (each from its transaction's sender), then the transactions run in order *)
+Definition charge_all (txs : list (N * N * prog)) (base : layer) : layer :=
+  fold_left (fun b t => charge (fst (fst t)) (snd (fst t)) b) txs base.
+Definition apply_block (pol : policy) (base : layer) (txs : list (N * N * prog)) : layer * list txout :=
+  let '(st, os) := run_txs pol true (charge_all txs base, false) (map snd txs) in
   (fst st, os).
 
 (* the reference: every transaction alone, on what the halted ones before it left *)
